@@ -13,6 +13,7 @@ mod c03;
 mod c09;
 mod c12;
 mod c13;
+mod c14;
 mod c17;
 mod c18;
 mod c19;
@@ -28,6 +29,7 @@ fn main() {
         "C09" => c09::run_case,
         "C12" => c12::run_case,
         "C13" => c13::run_case,
+        "C14" => c14::run_case,
         "C17" => c17::run_case,
         "C18" => c18::run_case,
         "C19" => c19::run_case,
